@@ -2,6 +2,7 @@ package harness
 
 import (
 	"fmt"
+	"os"
 	"testing"
 	"testing/synctest"
 )
@@ -205,7 +206,32 @@ func firstN(s []string, n int) []string {
 
 func runConcScenarios(t *testing.T, c *Collector, scs []*ConcScenario) {
 	totalOutcomes := 0
+	var curScenario *ConcScenario
+	// An execution that leaves goroutines blocked for ever (a writer whose
+	// notice channel was orphaned, a lock cycle) can never leave its synctest
+	// bubble. The worker records the violation, writes its results and exits;
+	// the rest of this shard's share is reported as not explored.
+	abortProcessAfter = func(res *execResult) {
+		if res.viol != nil && curScenario != nil {
+			v := res.viol
+			v.Property = curScenario.Prop
+			if v.Config == "" {
+				v.Config = curScenario.Cfg.String()
+			}
+			v.History = curScenario.Desc
+			v.Replay = map[string]any{"engine": "A", "scenario": curScenario.Name, "choices": choicesOf(res.trace.decisions), "schedule": res.trace.steps}
+			c.violation(v, len(res.trace.decisions))
+		} else if res.viol == nil {
+			c.res.InfraError = "execution cannot be completed: " + res.aborted
+		}
+		c.res.Evaluations++
+		c.res.Exhaustive = false
+		c.res.CapsHit = append(c.res.CapsHit, "worker stopped after an execution that blocks for ever (violation recorded)")
+		c.finish()
+		os.Exit(0)
+	}
 	for si, sc := range scs {
+		curScenario = sc
 		if c.expired() {
 			break
 		}
